@@ -85,17 +85,28 @@ def _one(args):
         out['problems'].append(('setup', err))
         return out
     path = battlecheck.write_battle(b, 'c14-%s-%s' % (game, version))
+    # '@RAW-OK' / '@RAW-BAD' stand for a writable / an unwritable target of --raw_data_output
+    raw_ok = path + '.raw'
+    raw_bad = os.path.join(path + '.no-such-dir', 'raw.bin')
+    unwritable = '@RAW-BAD' in extra_args
+    extra_args = [raw_ok if a == '@RAW-OK' else raw_bad if a == '@RAW-BAD' else a for a in extra_args]
     try:
         p = subprocess.run([common.PY, os.path.join(common.REPO, 'replay_parser.py'), '--replay', path] + extra_args,
                            cwd=common.REPO, stdout=subprocess.PIPE, stderr=subprocess.PIPE, text=True, timeout=300)
         ok, doc = one_document(p.stdout)
         out['stderr_bytes'] = len(p.stderr)
-        if p.returncode != 0:
+        if unwritable and '--strict_mode' in extra_args and p.returncode != 0:
+            # strict mode is asked to fail on the unwritable dump: nothing at all may have reached standard output
+            if p.stdout.strip():
+                out['problems'].append(('cli', 'strict run failing on the dump still wrote to standard output: %r' % p.stdout[:80]))
+        elif p.returncode != 0:
             out['problems'].append(('cli', 'the command-line tool exits with %d: %s' % (p.returncode, p.stderr.strip().split('\n')[-1][:200])))
         elif not ok:
             out['problems'].append(('cli', doc))
-        elif doc.get('hidden') is None:
+        elif doc.get('hidden') is None and not unwritable:
             out['problems'].append(('cli', 'the battle yields no summary (error: %r)' % doc.get('error')))
+        if '--raw_data_output' in extra_args and not unwritable and not (os.path.exists(raw_ok) and os.path.getsize(raw_ok) > 0):
+            out['problems'].append(('cli', 'the requested raw dump was not written'))
         # in-process: the structure itself through the encoder, and the model's verdict
         import logging
         import replay_parser
@@ -119,6 +130,8 @@ def _one(args):
             out['corr'].append('driver: %r' % (e,))
     finally:
         os.unlink(path)
+        if os.path.exists(raw_ok):
+            os.unlink(raw_ok)
     return out
 
 
@@ -152,6 +165,10 @@ def run(chk, drv):
             while len(ids) < per:
                 ids.append(900000 + len(ids) + k)
             extra = ['--strict_mode'] if i % 3 == 1 else (['--log_level', 'DEBUG'] if i % 3 == 2 and i % 9 == 2 else [])
+            if i % 7 == 3:
+                extra = extra + ['--raw_data_output', '@RAW-OK']
+            elif i % 7 == 5:
+                extra = extra + ['--raw_data_output', '@RAW-BAD']
             jobs.append((g, v, '%s-%d' % (chk.seed, r), ids, extra, [None, 'nan', 'inf', None, '-inf'][(i + r) % 5]))
     # the literals of the non-version modules are few: make sure each is used at least once even in the quick tier
     core_ids = [x for x in core if 0 < x < 2 ** 31]
